@@ -1,4 +1,5 @@
 import WhVerif.Model.C05
+import WhVerif.Model.C05Recomb
 /-!
 # C05 model, likelihood variant of the column cost computer (`--distrust-genotypes`)
 
@@ -72,6 +73,40 @@ def plToPhred (pl : List Nat) : Gl :=
   match pl.min? with
   | none => []
   | some m => pl.map (· - m)
+
+/-! ### float stage of `GenotypeLikelihoods.as_phred` (executable, compared with the code; nothing is proved about it) -/
+
+/-- Python's `max` of a non-empty list of floats (first maximal element) -/
+def floatMax : List Float → Option Float
+  | [] => none
+  | x :: xs => some (xs.foldl (fun m y => if y > m then y else m) x)
+
+/-- `sum(list of floats)` of CPython ≥ 3.12: the start value is the int 0, the first item is added to it, the remaining
+items are accumulated with Neumaier's compensated summation (`cs_add`), the compensation is added at the end -/
+def pySum : List Float → Float
+  | [] => 0.0
+  | x :: rest =>
+    let r := rest.foldl (fun (acc : Float × Float) y =>
+      let t := acc.1 + y
+      if acc.1.abs >= y.abs then (t, acc.2 + ((acc.1 - t) + y)) else (t, acc.2 + ((y - t) + acc.1))) (0.0 + x, 0.0)
+    if r.2 != 0 && r.2.isFinite then r.1 + r.2 else r.1
+
+/-- `GenotypeLikelihoods(log10 probabilities).as_phred(regularizer)`; `none` = an exception (empty list, `round` of
+NaN/inf, `log10` of a non-positive number) -/
+def asPhredFloat (logp : List Float) (regularizer : Option Float) : Option (List Int) :=
+  match regularizer with
+  | none => do
+    let m ← floatMax logp
+    logp.mapM (fun x => Recomb.pyRound ((x - m) * (-10.0)))
+  | some reg => do
+    let p := logp.map (fun x => Float.pow 10.0 x)
+    let s := pySum p
+    let p := p.map (fun x => x / s + reg)
+    let m ← floatMax p
+    p.mapM (fun x => if x / m > 0 then Recomb.pyRound (-10.0 * Float.log10 (x / m)) else none)
+
+/-- `VcfReader`: a PL value becomes the log10 likelihood `pl / -10` -/
+def plToLog (pl : Int) : Float := Float.ofInt pl / (-10.0)
 
 /-! ## the writer's genotype (`PhasedVcfWriter.write`, "is genotype to be changed?") -/
 
